@@ -728,6 +728,10 @@ func analyse(c *Config, o pipeOpts, cs []commitIn, ls *leafSet, failAt int) *ana
 		if o.ncl {
 			facts[factNoCleanup] = true
 		}
+		expired := o.dto == 7777 // the deadline of every diff is in the past: see below
+		if expired {
+			o.dto = 1
+		}
 		if o.dto > 0 {
 			facts[factDiffTimeout] = o.dto
 		}
